@@ -348,6 +348,9 @@ def synth(r):
         key = r.pick(['context', 'tracepoint', 'thread_name', 'k1', 'ünï'])
         val = r.pick([gen_text(r, False), r.randrange(-2 ** 62, 2 ** 62), True, 2.5, b'raw-bytes', ['x', 'y'], (1, 2),
                       [0.5, 1.5], [True], HttpStatus.NOT_FOUND, HttpStatus.OK, False, 0,
+                      # values that are equal to one another and differ in type (each keeps its own wire type), and
+                      # values that are falsy (they are values all the same)
+                      1, 1.0, 0.0, True, '', [1.0, 0.0], [1, 0],
                       # values the attribute container accepts and the wire format has no direct place for
                       gen_text(r), ('a', None, 'b'), 2 ** 64, -2 ** 70, [gen_text(r), 'z'],
                       # either side of what a 64 bit signed field can hold
